@@ -46,3 +46,54 @@ Theorem C19_shared_result_denotes_first_evaluation : forall base consumer,
   nth (length base - 1) (fst (eval_nodes (base ++ consumer) 0 [] [])) vempty = rvalue (ref base).
 Proof. exact result_argument_denotes_first_evaluation. Qed.
 Print Assumptions C19_shared_result_denotes_first_evaluation.
+
+(* ---- losses of tasks shared by concurrent runs (C03/Counting.v, any number of runs) ---- *)
+Require Import BS.C03.Counting.
+
+(* a shared task lost for the max-th time in a row: EVERY run awaiting it returns an
+   error, whatever the order in which the runs notice; it is not handed out again *)
+Theorem C19_shared_task_loss_limit : forall g, wf g -> forall st0 rootss sy0 t ls,
+  reachable_v true false g (init_sys st0 rootss) sy0 ->
+  handed (wst (sw sy0) t) -> wlu (sw sy0) t = true ->
+  deps_done false g (wst (sw sy0)) t ->
+  (wcl (sw sy0) t + 1 >= max_consecutive_lost)%Z ->
+  Forall ev_label ls ->
+  let r := exec_v true false g sy0 (LSet t TLost :: ls) in
+  quiescent (fst r) ->
+  (forall e, awaiting sy0 t e -> eres (get_ev (fst r) e) = Some true) /\
+  cnt t (runs_of (snd r)) = 0 /\
+  (tv (sw (fst r)) t = (TErr, (wcl (sw sy0) t + 1)%Z, false) \/
+   tv (sw (fst r)) t = (TLost, wcl (sw sy0) t, true)).
+Proof. exact lost_limit_all_evaluators. Qed.
+Print Assumptions C19_shared_task_loss_limit.
+
+(* fewer losses: the loss of a shared task is counted exactly once (not once per
+   awaiting run) and the task is handed out again exactly once, by whichever run gets
+   there first *)
+Theorem C19_shared_task_loss_counted_once : forall g, wf g -> forall st0 rootss sy0 t ls,
+  reachable_v true false g (init_sys st0 rootss) sy0 ->
+  handed (wst (sw sy0) t) -> wlu (sw sy0) t = true ->
+  deps_done false g (wst (sw sy0)) t ->
+  (wcl (sw sy0) t + 1 < max_consecutive_lost)%Z ->
+  Forall ev_label ls ->
+  let r := exec_v true false g sy0 (LSet t TLost :: ls) in
+  quiescent (fst r) ->
+  (cnt t (runs_of (snd r)) = 1 /\ handed (wst (sw (fst r)) t) /\
+   wcl (sw (fst r)) t = (wcl (sw sy0) t + 1)%Z /\ wlu (sw (fst r)) t = true) \/
+  (cnt t (runs_of (snd r)) = 0 /\ wst (sw (fst r)) t = TLost /\
+   (wcl (sw (fst r)) t = wcl (sw sy0) t \/ wcl (sw (fst r)) t = (wcl (sw sy0) t + 1)%Z) /\
+   forall e, awaiting sy0 t e -> eres (get_ev (fst r) e) = Some true).
+Proof. exact lost_resubmitted_all_evaluators. Qed.
+Print Assumptions C19_shared_task_loss_counted_once.
+
+(* concurrent uses of a shared Result at the granularity of whole operations: any
+   interleaving of runs, scans, discards and losses observes the first evaluation
+   (C12/Session.v) *)
+Require Import BS.C12.Session BS.C12.SessionProofs.
+Theorem C19_interleaved_uses_observe_first_evaluation :
+  forall (V : Type) (compute : nat -> list V -> V) (deps_of : nat -> list nat) (value : nat -> V),
+  (forall t, value t = compute t (map value (deps_of t))) ->
+  (forall t d, In d (deps_of t) -> d < t) ->
+  forall ops, Forall2 (allowed V value) ops (snd (run V compute deps_of [] ops)).
+Proof. exact history_observes_first_evaluation. Qed.
+Print Assumptions C19_interleaved_uses_observe_first_evaluation.
